@@ -115,6 +115,14 @@ func (r *Run) verifyTop() {
 			r.ctx.Assert(Not(Eq(v.T, mkInt(0))))
 		}
 		fr.free[fv] = v
+		if pt, ok := fv.Type().Underlying().(*types.Pointer); ok && v.Kind == VTerm {
+			switch pt.Elem().Underlying().(type) {
+			case *types.Struct, *types.Array:
+			default:
+				bc, _ := r.boxComp(pt.Elem())
+				r.localBoxes = append(r.localBoxes, localBox{bc, v.T})
+			}
+		}
 	}
 	// captured variables are visible to contracts by name: entry value in requires and old(), final value in ensures
 	for _, fv := range fn.FreeVars {
